@@ -5,6 +5,7 @@
 package queue
 
 import (
+	"github.com/whatap/golib/util/dateutil"
 	"strings"
 
 	"github.com/whatap/golib/zzvf"
@@ -199,6 +200,10 @@ func ZZ_C11_TimedGet() {
 	// sleep lasts, and the chain of 64-bit divisions by 3 (poll interval t/3) that the
 	// ">= d" model puts into every query is undecided by all back ends at 20 s (probe)
 	zzvf.SleepMayReturnEarly()
+	// a server-time correction is in force (dateutil.Now() = SystemNow() + delta): the
+	// timed wait is measured on one clock, whatever the correction
+	dateutil.SetDelta(int64(zzvf.IntRange(0, 200000)) - 100000)
+	defer dateutil.SetDelta(0)
 	timeout := zzvf.Int()
 	zzvf.Assume(timeout >= 0)
 	zzvf.Assume(timeout <= 100000)
